@@ -66,7 +66,8 @@ def gen_case(rnd, depth):
     # the same table with its integral numbers stored as another Go number kind (the engine accepts all of them)
     nk = rnd.choice(["int", "int64", "int32", "int16", "int8", "uint", "uint64", "uint32", "uint16", "uint8", "float32", "mixed"]) \
         if rnd.random() < 0.2 else None
-    return mk_case(doc, q, mode="seq", num_kind=nk)
+    # ... or with its tables handed over as typed slices ([]map[string]any) instead of []any
+    return mk_case(doc, q, mode="seq", num_kind=nk, tables="maps" if rnd.random() < 0.15 else None)
 
 
 def nontrivial(c, g, l):
